@@ -87,8 +87,14 @@ def doP (b : Blk) (w : Array String) : List String :=
   let phaseIn := w.getD 16 "0" == "1"
   let ntok := nat (w.getD 22 "0")
   let toks := readToks w 22 ntok
+  -- flags and target of the unknown are those of the assemblage component in use (setup_pure_phases / quick_setup)
+  let ci := 23 + 3 * ntok
+  let compDis := w.getD (ci + 1) "0" == "1"
+  let pc := fx (w.getD 19 "")
+  let copyOk := (w.getD ci "" != "C") || (dis == compDis && (pc > 0.0 || si == fx (w.getD 21 "")))
+  let copyLine := vline b "T" "pp-unknown-copy" name copyOk (b2f dis) (b2f compDis)
   if !phaseIn then
-    [vline b "V" "notin" name (decide (moles ≤ initial) || prec) moles initial]
+    [copyLine, vline b "V" "notin" name (decide (moles ≤ initial) || prec) moles initial]
   else
     let fM := ppF lk si toks
     let iapM := iapOf toks
@@ -100,7 +106,7 @@ def doP (b : Blk) (w : Array String) : List String :=
     let chk := row.check b.env
     let fin : Final Float := { moles := moles, d := (iap - lk) - si, initial := initial, dissolveOnly := dis, precipOnly := prec }
     let valid := validPhaseB epsSI fin
-    [vline b "T" "pp-f" name (close 1e-13 1e-11 f fM) f fM,
+    [copyLine, vline b "T" "pp-f" name (close 1e-13 1e-11 f fM) f fM,
      vline b "T" "pp-iap" name (close 1e-13 1e-11 iap iapM) iap iapM,
      vline b "T" "pp-resid" name (close 1e-14 1e-300 resid (f * (LOG_10 : Float))) resid (f * (LOG_10 : Float)),
      vline b "T" "pp-gate" name (!fails && !chk.1 && !chk.2) (b2f fails) (b2f chk.1 + 2 * b2f chk.2),
